@@ -1,0 +1,33 @@
+package stream
+
+import (
+	"testing"
+
+	"github.com/stretchr/testify/assert"
+)
+
+// A prefix NOT covers the comparison that follows it, up to the next AND / OR.
+func TestLowerNotOperator_Precedence(t *testing.T) {
+	cases := map[string]string{
+		"NOT v < 2":                   "not (v < 2)",
+		"not v < 2":                   "not (v < 2)",
+		"NOT (v < 2)":                 "not (v < 2)",
+		"v > 0 && NOT v < 2 && v < 3": "v > 0 && not (v < 2) && v < 3",
+		"NOT v < 2 || v == 1":         "not (v < 2) || v == 1",
+		"NOT v < 2 and v < 3":         "not (v < 2) and v < 3",
+		"(NOT v < 2) && (v < 3)":      "(not (v < 2)) && (v < 3)",
+		"NOT NOT v < 2":               "not (not (v < 2))",
+		"NOT (v + 1) * 2 < 6":         "not ((v + 1) * 2 < 6)",
+		"NOT f(a, b) > 1":             "not (f(a, b) > 1)",
+		"NOT k == 'a && b'":           "not (k == 'a && b')",
+		"k == 'NOT v < 2'":            "k == 'NOT v < 2'",
+		"v NOT IN [1, 2]":             "v not IN [1, 2]",
+		"v not in [1, 2]":             "v not in [1, 2]",
+		"v IS NOT NULL":               "v IS NOT NULL",
+		"k NOT LIKE 'a%'":             "k NOT LIKE 'a%'",
+		"NOT flag":                    "not (flag)",
+	}
+	for in, want := range cases {
+		assert.Equal(t, want, lowerNotOperator(in), in)
+	}
+}
